@@ -353,7 +353,7 @@ func RepopulatePhysicalExpressionFunctions(expr physical.Expression) (physical.E
 			}
 
 			log.Printf("Unknown function signature, rejecting predicate: %s", expr.FunctionCall.Name)
-			ok = false
+			outOk = false
 			return expr
 		},
 	}).TransformExpr(expr)
